@@ -1186,10 +1186,6 @@ func enrich(c *Case, seed int64, ndb int) {
 		c.Skip = "no sql (" + c.Err + ")"
 		return
 	}
-	if c.Ctx.Cluster {
-		c.Skip = "cluster (inline WITH rendering)"
-		return
-	}
 	script, err := logql_parser.Parse(c.Query)
 	if err != nil {
 		c.Skip = "parse"
@@ -1388,7 +1384,7 @@ func main() {
 			}
 			out.Put(Case{ID: i, Query: q, Class: class, Runs: 1, Ctx: Ctx{
 				FromNs: from, ToNs: from + int64(1+r.Intn(7200))*1e9,
-				Limit: []int64{0, 0, 1, 2, 3, 100}[r.Intn(6)], Asc: r.Intn(2) == 0, Cluster: false,
+				Limit: []int64{0, 0, 1, 2, 3, 100}[r.Intn(6)], Asc: r.Intn(2) == 0, Cluster: r.Intn(4) == 0,
 				Type: []uint8{0, 1, 1, 2}[r.Intn(4)], Finalize: r.Intn(6) != 0, StepMs: 1000,
 			}})
 		}
